@@ -91,7 +91,6 @@ KdRsrcBase == IF "KdRsrcOffByFour" \in Deviations THEN 40 ELSE 44
 KDFieldsAt(kd, base) ==
   [lds |-> U32(kd, 0), priv |-> U32(kd, 4), ka |-> U32(kd, 8), entry |-> U64(kd, 16),
    r3 |-> U32(kd, base), r1 |-> U32(kd, base + 4), r2 |-> U32(kd, base + 8)]
-KDFields(kd) == KDFieldsAt(kd, KdRsrcBase)
 
 (* The loader's documented V5 rules (named rules, not deviations):         *)
 (*  register counts are the granulated counts of rsrc1, (g+1)*4 and        *)
@@ -150,21 +149,22 @@ FindKD(f, nm) ==
 
 Refuse(why) == [ok |-> FALSE, why |-> why]
 
-LoadSym(f, i) ==
+LoadSym(f, i, base) ==
   LET s == f.syms[i]
       img == Range(f.secs[SecIdx(f, ".text")], s.value, s.size)
       kd == FindKD(f, s.name)
   IN IF img = <<-1>> THEN Refuse("malformed")
      ELSE IF kd # <<>>                                   \* the descriptor decides, whatever the bytes look like
      THEN [ok |-> TRUE, sym |-> i, ver |-> 5, data |-> img,
-           meta |-> OverrideRegs(V5Derive(KDFields(kd)), SymVals(f, s.name \o ".numbered_sgpr"),
+           meta |-> OverrideRegs(V5Derive(KDFieldsAt(kd, base)), SymVals(f, s.name \o ".numbered_sgpr"),
                                  SymVals(f, s.name \o ".num_vgpr"))]
      ELSE LET r == Sniff(img) IN [ok |-> TRUE, sym |-> i, ver |-> r.ver, data |-> r.data, meta |-> r.meta]
 
 LoadWhole(f) == LET r == Sniff(f.secs[SecIdx(f, ".text")].data)
                 IN [ok |-> TRUE, sym |-> 0, ver |-> r.ver, data |-> r.data, meta |-> r.meta]
 
-Load(f, name) ==
+\* base = where compute_pgm_rsrc3 is read in a descriptor (44 by the format)
+LoadWith(f, name, base) ==
   IF SecIdx(f, ".text") = 0 THEN Refuse("notext")
   ELSE IF f.symtab = 0 THEN LoadWhole(f)                 \* no symbol table: the name cannot be looked up
   ELSE LET ks == KernelSyms(f)
@@ -172,20 +172,19 @@ Load(f, name) ==
           ELSE IF name = "" /\ Cardinality(ks) > 1 THEN Refuse("ambiguous")
           ELSE LET cand == IF name = "" THEN ks ELSE {i \in ks : f.syms[i].name = name}
                IN IF cand = {} THEN Refuse("notfound")
-                  ELSE LoadSym(f, CHOOSE i \in cand : \A j \in cand : i <= j)
+                  ELSE LoadSym(f, CHOOSE i \in cand : \A j \in cand : i <= j, base)
+Load(f, name) == LoadWith(f, name, KdRsrcBase)
 
 (* Files the property quantifies over: one .text, at most one .rodata,     *)
 (* kernel names unique, every kernel inside .text, at most one descriptor  *)
 (* symbol per kernel, register-count symbols in a sane range.              *)
 Count(f, nm) == Cardinality({i \in 1..Len(f.secs) : f.secs[i].name = nm})
-HasSuffix(s, suf, names) == \E n \in names : s = n \o suf
 WellFormed(f) ==
   /\ Count(f, ".text") = 1 /\ Count(f, ".rodata") <= 1
   /\ \A i, j \in KernelSyms(f) : f.syms[i].name = f.syms[j].name => i = j
   /\ \A i \in KernelSyms(f) : Range(f.secs[SecIdx(f, ".text")], f.syms[i].value, f.syms[i].size) # <<-1>>
-  /\ \A i, j \in 1..Len(f.syms) :
-        (/\ f.syms[i].name = f.syms[j].name /\ f.syms[i].size = W64(64) /\ f.syms[j].size = W64(64)
-         /\ \E k \in KernelSyms(f) : f.syms[i].name = f.syms[k].name \o ".kd") => i = j
+  /\ \A k \in KernelSyms(f) :
+        Cardinality({i \in 1..Len(f.syms) : f.syms[i].name = f.syms[k].name \o ".kd" /\ f.syms[i].size = W64(64)}) <= 1
   /\ \A i \in 1..Len(f.syms) : \A k \in KernelSyms(f) :
         f.syms[i].name \in {f.syms[k].name \o ".numbered_sgpr", f.syms[k].name \o ".num_vgpr"}
            => IsSmall(f.syms[i].value) /\ Val(f.syms[i].value) < 16384
